@@ -8,15 +8,15 @@ open Rx Rx.Gen.FilterMap
 def absFilterMap (g : FilterMapObserver) : St1 := .filterMap g.f
 
 theorem tie_FilterMap_next (g : FilterMapObserver) (v : Val) :
-    (FilterMapObserver.next g v).map (fun r => (absFilterMap r.1, r.2)) = some (St1.onNext (absFilterMap g) v) := by
+    (FilterMapObserver.next g v).map (fun r => (absFilterMap r.1, r.2)) = some (Rs.lift (St1.onNext (absFilterMap g) v)) := by
   rcases g with ⟨⟩ <;> rs_tie [FilterMapObserver.next, absFilterMap, St1.onNext]
 
 theorem tie_FilterMap_error (g : FilterMapObserver) (e : Err) :
-    (FilterMapObserver.error g e).map (fun r => r.2) = some (St1.onError' (absFilterMap g) e).2 := by
+    (FilterMapObserver.error g e).map (fun r => r.2) = some ((St1.onError' (absFilterMap g) e).2.map Rs.Ev.n) := by
   rcases g with ⟨⟩ <;> rs_tie [FilterMapObserver.error, absFilterMap, St1.onError']
 
 theorem tie_FilterMap_complete (g : FilterMapObserver) :
-    (FilterMapObserver.complete g).map (fun r => r.2) = some (St1.onComplete' (absFilterMap g)).2 := by
+    (FilterMapObserver.complete g).map (fun r => r.2) = some ((St1.onComplete' (absFilterMap g)).2.map Rs.Ev.n) := by
   rcases g with ⟨⟩ <;> rs_tie [FilterMapObserver.complete, absFilterMap, St1.onComplete']
 
 
